@@ -36,14 +36,21 @@ import (
 // Spec is one generated input: files 0..N-1 (0 is the root), their directories, and for every file
 // its textual imports as (target file, spelling kind).
 type Imp struct {
-	To   int `json:"to"`
-	Kind int `json:"kind"` // see spell()
+	To   int    `json:"to"`
+	Kind int    `json:"kind"`          // see spell()
+	Ver  string `json:"ver,omitempty"` // version suffix on a full remote spelling (master/main/develop are all "the default")
 }
 type Spec struct {
-	Dirs [][]string `json:"dirs"` // directory segments of file i
-	Imps [][]Imp    `json:"imps"`
-	Max  int        `json:"max"` // --max-import-depth
+	Dirs   [][]string `json:"dirs"` // directory segments of file i
+	Imps   [][]Imp    `json:"imps"`
+	Max    int        `json:"max"`              // --max-import-depth
+	Remote []bool     `json:"remote,omitempty"` // file i lives in the remote repository //h.co/o/r (remote-style, versioned imports)
+	BsRoot bool       `json:"bsroot,omitempty"` // the root is named with backslashes (d\root.sysl); others import it with slashes
 }
+
+const remoteRepo = "//h.co/o/r"
+
+func (s *Spec) remote(i int) bool { return i < len(s.Remote) && s.Remote[i] }
 
 func (s *Spec) n() int { return len(s.Imps) }
 
@@ -54,15 +61,37 @@ func baseName(i int) string {
 	return fmt.Sprintf("f%d", i)
 }
 func (s *Spec) path(i int) string {
-	return strings.Join(append(append([]string{}, s.Dirs[i]...), baseName(i)+".sysl"), "/")
+	if i == 0 && s.BsRoot {
+		return strings.Join(append(append([]string{}, s.Dirs[i]...), baseName(i)+".sysl"), "\\")
+	}
+	p := strings.Join(append(append([]string{}, s.Dirs[i]...), baseName(i)+".sysl"), "/")
+	if s.remote(i) {
+		return remoteRepo + "/" + p
+	}
+	return p
 }
 
 const nKinds = 6
 
 // spell: how file `from` writes its import of file `to`. Every kind resolves (filepath.Join in
 // EnterImport_stmt) to the same cleaned path, hence to the same canonical index.
-func (s *Spec) spell(from, to, kind int) string {
+func (s *Spec) spell(from, to, kind int, ver string) string {
 	fd, tdir := s.Dirs[from], s.Dirs[to]
+	if s.remote(to) && (!s.remote(from) || kind == 5) {
+		// the full remote spelling, with or without extension and version
+		full := remoteRepo + "/" + strings.Join(append(append([]string{}, tdir...), baseName(to)), "/")
+		if kind%2 == 1 {
+			full += ".sysl"
+		}
+		if ver != "" {
+			full += "@" + ver
+		}
+		return full
+	}
+	if from == 0 && s.BsRoot && kind != 5 {
+		// filepath.Dir of a backslash name is ".": only rooted spellings reach the target
+		kind = 2 + kind%2
+	}
 	rooted := "/" + strings.Join(append(append([]string{}, tdir...), baseName(to)), "/")
 	// relative path from fd to tdir
 	k := 0
@@ -98,7 +127,7 @@ func (s *Spec) spell(from, to, kind int) string {
 func (s *Spec) content(i int) string {
 	var sb strings.Builder
 	for _, im := range s.Imps[i] {
-		fmt.Fprintf(&sb, "import %s\n", s.spell(i, im.To, im.Kind))
+		fmt.Fprintf(&sb, "import %s\n", s.spell(i, im.To, im.Kind, im.Ver))
 	}
 	// every file re-opens the shared app Common (its source contexts record the merge order)
 	// and defines its own app
@@ -141,7 +170,11 @@ func (g *gate) ReadHash(ctx context.Context, p string) ([]byte, retriever.Hash, 
 }
 func (g *gate) ReadHashBranch(ctx context.Context, p string) ([]byte, retriever.Hash, string, error) {
 	g.mu.Lock()
-	i, ok := g.byPath[p]
+	i, ok := g.find(p)
+	branch := ""
+	if at := strings.IndexByte(p, '@'); at >= 0 {
+		branch = p[at+1:] // as the real retriever: the version that was asked for
+	}
 	if !ok {
 		g.unknown = append(g.unknown, p)
 		g.mu.Unlock()
@@ -153,14 +186,14 @@ func (g *gate) ReadHashBranch(ctx context.Context, p string) ([]byte, retriever.
 		g.mu.Lock()
 		g.reads = append(g.reads, i)
 		g.mu.Unlock()
-		return []byte(g.content[i]), retriever.ZeroHash, "", nil
+		return []byte(g.content[i]), retriever.ZeroHash, branch, nil
 	}
 	ch := make(chan struct{})
 	if _, dup := g.waiting[i]; dup {
 		// a second read of a file whose first read is still blocked: let it through, it is logged
 		g.reads = append(g.reads, i)
 		g.mu.Unlock()
-		return []byte(g.content[i]), retriever.ZeroHash, "", nil
+		return []byte(g.content[i]), retriever.ZeroHash, branch, nil
 	}
 	g.waiting[i] = ch
 	g.order = append(g.order, i)
@@ -169,7 +202,20 @@ func (g *gate) ReadHashBranch(ctx context.Context, p string) ([]byte, retriever.
 	g.mu.Lock()
 	g.reads = append(g.reads, i)
 	g.mu.Unlock()
-	return []byte(g.content[i]), retriever.ZeroHash, "", nil
+	return []byte(g.content[i]), retriever.ZeroHash, branch, nil
+}
+
+// find: the file a path names; a remote path may carry a version suffix (the retriever's business, one
+// content per file here). Exact spelling otherwise: the parser must have resolved the import itself.
+func (g *gate) find(p string) (int, bool) {
+	if i, ok := g.byPath[p]; ok {
+		return i, true
+	}
+	if at := strings.IndexByte(p, '@'); at >= 0 && strings.HasPrefix(p, "//") {
+		i, ok := g.byPath[p[:at]]
+		return i, ok
+	}
+	return 0, false
 }
 
 // settled: every goroutine of the collection is parked, either in our gate or in errgroup's Wait.
@@ -291,14 +337,19 @@ func sortedKeys(m map[int]chan struct{}) []int {
 
 func (o *Obs) fill(s *Spec, rd *gate, po parseOut, files []string) {
 	for _, f := range files {
-		if i, ok := rd.byPath[f]; ok {
+		if i, ok := rd.find(f); ok {
 			o.Final = append(o.Final, i)
 		} else {
 			o.Final = append(o.Final, -1)
 		}
 	}
 	for _, f := range po.merge {
-		if i, ok := rd.byPath[f]; ok {
+		// source contexts carry the display form of the name (backslashes shown as slashes)
+		if s.BsRoot && f == strings.ReplaceAll(s.path(0), "\\", "/") {
+			o.Merge = append(o.Merge, 0)
+			continue
+		}
+		if i, ok := rd.find(f); ok {
 			o.Merge = append(o.Merge, i)
 		} else {
 			o.Merge = append(o.Merge, -1)
@@ -746,14 +797,55 @@ func genRandom(r *common.Rng, maxN int) *Spec {
 			default:
 				to = r.Intn(n)
 			}
-			s.Imps[i] = append(s.Imps[i], Imp{to, kind(r)})
+			s.Imps[i] = append(s.Imps[i], Imp{to, kind(r), ""})
 		}
 		if r.Chance(1, 10) && len(s.Imps[i]) > 0 { // the same file imported twice by one parent, spelled differently
-			s.Imps[i] = append(s.Imps[i], Imp{s.Imps[i][0].To, kind(r)})
+			s.Imps[i] = append(s.Imps[i], Imp{s.Imps[i][0].To, kind(r), ""})
 		}
 	}
 	if r.Chance(1, 2) {
 		s.Max = r.Intn(n + 2)
+	}
+	return decorate(r, s)
+}
+
+// decorate: sometimes move an import-closed part of the graph into a remote repository (imports of those
+// files are then spelled //host/org/repo/path[.sysl][@version], all versions naming "the default" so that
+// the different-version check stays silent), sometimes name the root with backslashes.
+func decorate(r *common.Rng, s *Spec) *Spec {
+	n := s.n()
+	if n > 1 && r.Chance(1, 4) {
+		f := 1 + r.Intn(n-1)
+		g := s.graph()
+		in := map[int]bool{}
+		var rec func(int)
+		rec = func(x int) {
+			if in[x] {
+				return
+			}
+			in[x] = true
+			for _, k := range g[x] {
+				rec(k)
+			}
+		}
+		rec(f)
+		if !in[0] {
+			s.Remote = make([]bool, n)
+			for x := range in {
+				s.Remote[x] = true
+			}
+			vers := []string{"", "", "master", "main", "develop"}
+			for i := range s.Imps {
+				for j := range s.Imps[i] {
+					if s.Remote[s.Imps[i][j].To] {
+						s.Imps[i][j].Ver = vers[r.Intn(len(vers))]
+					}
+				}
+			}
+		}
+	}
+	if len(s.Dirs[0]) > 0 && r.Chance(1, 3) {
+		s.BsRoot = true
 	}
 	return s
 }
@@ -770,7 +862,7 @@ func genUnequal(r *common.Rng) *Spec {
 		first = id
 		for j := 0; j < k; j++ {
 			if j > 0 {
-				s.Imps[id-1] = append(s.Imps[id-1], Imp{id, kind(r)})
+				s.Imps[id-1] = append(s.Imps[id-1], Imp{id, kind(r), ""})
 			}
 			id++
 		}
@@ -782,19 +874,19 @@ func genUnequal(r *common.Rng) *Spec {
 	id++
 	tf, _ := chain(tail)
 	if r.Bool() {
-		s.Imps[0] = []Imp{{sf, kind(r)}, {lf, kind(r)}}
+		s.Imps[0] = []Imp{{sf, kind(r), ""}, {lf, kind(r), ""}}
 	} else {
-		s.Imps[0] = []Imp{{lf, kind(r)}, {sf, kind(r)}}
+		s.Imps[0] = []Imp{{lf, kind(r), ""}, {sf, kind(r), ""}}
 	}
-	s.Imps[sl] = append(s.Imps[sl], Imp{x, kind(r)})
-	s.Imps[ll] = append(s.Imps[ll], Imp{x, kind(r)})
-	s.Imps[x] = append(s.Imps[x], Imp{tf, kind(r)})
+	s.Imps[sl] = append(s.Imps[sl], Imp{x, kind(r), ""})
+	s.Imps[ll] = append(s.Imps[ll], Imp{x, kind(r), ""})
+	s.Imps[x] = append(s.Imps[x], Imp{tf, kind(r), ""})
 	// x is at depth short+1 / long+1; the tail's first file at short+2
 	s.Max = long + 2 + r.Intn(tail)
 	if r.Chance(1, 4) {
 		s.Max = 0
 	}
-	return s
+	return decorate(r, s)
 }
 
 // every file at one depth only: trees and layered DAGs, with a limit
@@ -817,18 +909,18 @@ func genLayered(r *common.Rng) *Spec {
 		for _, f := range lay[l] {
 			for _, k := range lay[l+1] {
 				if r.Chance(2, 3) {
-					s.Imps[f] = append(s.Imps[f], Imp{k, kind(r)})
+					s.Imps[f] = append(s.Imps[f], Imp{k, kind(r), ""})
 				}
 			}
 		}
 		// every file of the next layer has at least one parent
 		for _, k := range lay[l+1] {
 			f := lay[l][r.Intn(len(lay[l]))]
-			s.Imps[f] = append(s.Imps[f], Imp{k, kind(r)})
+			s.Imps[f] = append(s.Imps[f], Imp{k, kind(r), ""})
 		}
 	}
 	s.Max = r.Intn(layers + 2)
-	return s
+	return decorate(r, s)
 }
 
 // all digraphs over n files (adjacency as a bit mask), imports in ascending or descending order
@@ -838,7 +930,7 @@ func genMask(n int, mask uint64, desc bool, max int) *Spec {
 		s.Dirs[i] = []string{}
 		for j := 0; j < n; j++ {
 			if mask&(1<<uint(i*n+j)) != 0 {
-				s.Imps[i] = append(s.Imps[i], Imp{j, 0})
+				s.Imps[i] = append(s.Imps[i], Imp{j, 0, ""})
 			}
 		}
 		if desc {
@@ -974,8 +1066,15 @@ func (r *runner) histSpec(s *Spec, v verdict) {
 	if v.multiDepth {
 		c.Hist("graph:file-at-two-depths-under-limit")
 	}
+	if s.BsRoot {
+		c.Hist("spelling:backslash-root")
+	}
 	for i, l := range s.Imps {
 		for _, im := range l {
+			if s.remote(im.To) && (!s.remote(i) || im.Kind == 5) {
+				c.Hist("spelling:remote@" + im.Ver)
+				continue
+			}
 			c.Hist(fmt.Sprintf("spelling:%d", im.Kind))
 			if im.To == i {
 				c.Hist("graph:self-import")
@@ -1113,13 +1212,20 @@ Local Open Scope N_scope.`
 
 	// 0. the regression corpus: the depth-limit witness of the design round, and small hand shapes
 	witness := &Spec{Dirs: [][]string{{}, {}, {}, {}, {}, {}}, Max: 4,
-		Imps: [][]Imp{{{1, 0}, {2, 0}}, {{4, 0}}, {{3, 0}}, {{4, 0}}, {{5, 0}}, {}}}
+		Imps: [][]Imp{{{1, 0, ""}, {2, 0, ""}}, {{4, 0, ""}}, {{3, 0, ""}}, {{4, 0, ""}}, {{5, 0, ""}}, {}}}
 	r.allSchedules(witness, 200)
 	wu := *witness
 	wu.Max = 0
 	r.allSchedules(&wu, 200)
+	// remote-style versioned spellings of one file, and a backslash-named root that is imported back
+	remoteDiamond := &Spec{Dirs: [][]string{{}, {}, {"d"}, {"k"}}, Remote: []bool{false, false, true, true},
+		Imps: [][]Imp{{{1, 0, ""}, {2, 0, "master"}, {2, 1, ""}}, {{2, 1, "main"}, {3, 0, "develop"}}, {{3, 0, ""}, {2, 2, ""}}, {{2, 3, ""}, {3, 5, "master"}}}}
+	r.allSchedules(remoteDiamond, 200)
+	bsRoot := &Spec{Dirs: [][]string{{"d"}, {"d"}, {}}, BsRoot: true,
+		Imps: [][]Imp{{{1, 2, ""}, {2, 3, ""}}, {{0, 0, ""}, {2, 0, ""}}, {{0, 2, ""}}}}
+	r.allSchedules(bsRoot, 200)
 	diamondCycle := &Spec{Dirs: [][]string{{}, {"d"}, {"d", "e"}, {"k"}}, Max: 0,
-		Imps: [][]Imp{{{1, 0}, {2, 2}, {0, 0}}, {{3, 1}, {1, 4}}, {{3, 3}, {0, 2}}, {{1, 5}, {3, 0}}}}
+		Imps: [][]Imp{{{1, 0, ""}, {2, 2, ""}, {0, 0, ""}}, {{3, 1, ""}, {1, 4, ""}}, {{3, 3, ""}, {0, 2, ""}}, {{1, 5, ""}, {3, 0, ""}}}}
 	r.allSchedules(diamondCycle, 200)
 
 	nRand, nUnequal, nLayered, nSched, maxN := 70, 25, 25, 3, 8
